@@ -10,6 +10,8 @@ import (
 	"fmt"
 	"math/rand"
 	"net"
+	"os"
+	"runtime"
 	"sync"
 	"sync/atomic"
 	"time"
@@ -418,6 +420,39 @@ func init() {
 			}
 		}
 		probe("flood-of-body-dependent-requests-beside-the-established-session")
+		// connections that end before they ever joined (silent, half a frame, refused as a duplicate of the established key):
+		// whatever the server held for them - descriptor, goroutines - is released
+		{
+			countFDs := func() int {
+				es, _ := os.ReadDir("/proc/self/fd")
+				return len(es)
+			}
+			time.Sleep(200 * time.Millisecond)
+			fd0, g0 := countFDs(), runtime.NumGoroutine()
+			for i := 0; i < 150; i++ {
+				ph := []byte{0x01, 0x33, 0x00, 0x08, byte(i / 100), byte(i%100/10<<4 | i%10)}
+				if i%3 == 2 {
+					ph = cphone
+				}
+				d := l.dial(ph, 0)
+				if i == 0 {
+					l.rec.log(d.idx, "D", "hostile", "name", "150-connections-that-end-before-joining")
+				}
+				switch i % 3 {
+				case 1:
+					f := d.frame(0x0200, make([]byte, 28))
+					d.send(f[:len(f)/2])
+				case 2:
+					d.send(d.frame(0x0002, nil))
+					time.Sleep(2 * time.Millisecond)
+				}
+				d.close(i%2 == 0)
+			}
+			time.Sleep(600 * time.Millisecond)
+			fd1, g1 := countFDs(), runtime.NumGoroutine()
+			l.rec.log(canary.idx, "D", "leak", "fds", fd1-fd0, "goroutines", g1-g0, "after", "150-connections-that-end-before-joining")
+		}
+		probe("150-connections-that-end-before-joining")
 		// a client that presents the established session's key is refused; the established session keeps its registration
 		for i := 0; i < 3; i++ {
 			d := l.dial(cphone, 0)
